@@ -814,6 +814,32 @@ class Exec:
         # symbolic index
         if p[0] == 'c':
             return self.project(v, p[1])
+        if p[0] == 'ite' and v[0] == 'agg':
+            # an index that is a choice between constants (the position of the best so far, ...): the selection
+            # distributes over the choice, which keeps `values[pick]` in the shape of the decisions that made `pick`
+            leaves_ok, stack, seen_ = True, [p], set()
+            while stack and leaves_ok:
+                q = stack.pop()
+                if id(q) in seen_:
+                    continue
+                seen_.add(id(q))
+                if q[0] == 'ite':
+                    stack.append(q[2]); stack.append(q[3])
+                elif q[0] != 'c':
+                    leaves_ok = False
+            if leaves_ok and len(seen_) <= 4000:
+                memo_ = {}
+
+                def dist(q):
+                    r = memo_.get(id(q))
+                    if r is None:
+                        if q[0] == 'ite':
+                            r = mk_ite(q[1], dist(q[2]), dist(q[3]))
+                        else:
+                            r = v[2][q[1]] if 0 <= q[1] < len(v[2]) else UNDEF
+                        memo_[id(q)] = r
+                    return r
+                return dist(p)
         if v[0] == 'tbl':
             return mk('idx', v[1], p, v[3])
         if v[0] == 'agg':
